@@ -77,7 +77,7 @@ def sym(E, p, kf):
     elif kind in ("rs", "sr"):
         sk = p["sk"]
         if sk == "pyint":
-            sc = E.int("s", 0, 100)
+            sc = E.int("s", 0, 100) if not p.get("big") else E.int("s", -400, 400)
         elif sk == "pybool":
             sc = E.bool("s")
         else:
@@ -191,7 +191,7 @@ def conc(case):
     got = outcome(lambda: apply(RaggedArray, p, lens, d1, d2, sc, lens2))
     if p["kind"] == "rr_bad":
         return got, common.refused()
-    uf = getattr(np, p["op"])
+    uf = _ufunc(p["op"])
     kind = p["kind"]
     rows1 = common.rows_of(d1, lens)
     out_rows, odt = [], None
@@ -269,6 +269,11 @@ def jobs(tier, seed):
         for kind in ("rc", "cr"):
             out.append(dict(small, op="uf_f", kind=kind, dt1="float16", dt2="float16", sk=None, pre=pre))
         out.append(dict(small, op="subtract", kind="rc", dt1="int64", dt2="int64", sk=None, pre=pre))
+    for kind in ("rc", "cr"):
+        out.append(dict(R=3, L=2, op="uf_f", kind=kind, dt1="float16", dt2="float16", sk=None))          # freshly built operand, float column
+    for dt1 in ("int8", "uint8"):
+        for kind in ("rs", "sr"):
+            out.append(dict(base, op="less", kind=kind, dt1=dt1, dt2="int64", sk="pyint", big=True))          # compared on the mathematical values
     # python scalars on small dtypes (NEP 50: weak)
     for dt1 in ("uint8", "int8", "int32", "bool"):
         for sk in ("pyint", "pybool"):
